@@ -167,6 +167,18 @@ TNoWriter ==
   /\ UNCHANGED <<pend, commd, lo, metaop, payload, wopen, wCreated, dirty, sorted, kf>>
 
 
+
+\* IndexWriter::merge on UNCOMMITTED segments uses the commit opstamp as target and the merged
+\* entry inherits one source's delete cursor (recorded finding F6: the next commit may lose
+\* documents; the dedicated reproduction run is rejected at that commit)
+TMergeUncommitted ==
+  /\ Ev.ev = "merge_uncommitted" /\ wopen
+  /\ UNCHANGED <<pend, commd, lo, metaop, payload, wopen, wCreated, dirty, sorted, kf>>
+
+TWaitUncommitted ==
+  /\ Ev.ev = "wait_uncommitted"
+  /\ UNCHANGED <<pend, commd, lo, metaop, payload, wopen, wCreated, dirty, sorted, kf>>
+
 TCall ==
   /\ Ev.ev = "call"
   /\ UNCHANGED <<pend, commd, lo, metaop, payload, wopen, wCreated, dirty, sorted, kf>>
@@ -195,7 +207,7 @@ TNext ==
   /\ l <= Len(Rec) /\ l' = l + 1
   /\ \/ TReset \/ TNewWriter \/ TDropWriter \/ TAdd \/ TDel \/ TRun \/ TDeleteAll \/ TCommit
      \/ TRollback \/ TMerge \/ TWaitMerges \/ TGc \/ TObserve \/ TEnd \/ TNoWriter
-     \/ TCall \/ TCrashImage
+     \/ TCall \/ TCrashImage \/ TMergeUncommitted \/ TWaitUncommitted
   /\ calling' = CASE Ev.ev = "call" -> TRUE
                   [] Ev.ev \in {"commit", "prepare_commit", "prepare_abort", "reset"} -> FALSE
                   [] OTHER -> calling
